@@ -161,6 +161,19 @@ func cborEntries(b []byte) ([][]byte, error) {
 	return out, nil
 }
 
+// roomWriter accepts room bytes, then refuses (a full disk, a closed connection).
+type roomWriter struct{ room, n int }
+
+func (w *roomWriter) Write(p []byte) (int, error) {
+	if w.n+len(p) > w.room {
+		k := w.room - w.n
+		w.n = w.room
+		return k, errors.New("no room left in the destination")
+	}
+	w.n += len(p)
+	return len(p), nil
+}
+
 func writeContainer(toks []sealedTok, order []int, fmtName string, b64 bool, variant string) ([]byte, error) {
 	w := container.NewWriter()
 	for _, k := range order {
@@ -518,6 +531,55 @@ func init() {
 								"a container holding tokens of every key algorithm cannot be read back")
 						} else if why := sameSet(rd, all); why != "" {
 							rep.violation(map[string]any{"fmt": f, "b64": b64}, "exactly the tokens that were added", why, "round trip with tokens of every key algorithm")
+						}
+					}
+				}
+			}
+			// the stream writers into every kind of destination, and into a destination with room for only L bytes, for
+			// EVERY L below the size of the container: what arrives reads back as the set, a refusal is reported
+			small := all[:3]
+			sorder := []int{1, 2, 3}
+			for _, f := range []string{"car", "cbor"} {
+				for _, b64 := range []bool{false, true} {
+					stream := func(w io.Writer) error {
+						cw := container.NewWriter()
+						for _, k := range sorder {
+							cw.AddSealed(small[k-1].id, small[k-1].sealed)
+						}
+						switch {
+						case f == "car" && !b64:
+							return cw.ToCarWriter(w)
+						case f == "car":
+							return cw.ToCarBase64Writer(w)
+						case !b64:
+							return cw.ToCborWriter(w)
+						}
+						return cw.ToCborBase64Writer(w)
+					}
+					cs := map[string]any{"fmt": f, "b64": b64, "writer": "stream"}
+					total := 0
+					for _, sk := range sinkKinds() {
+						rep.Evaluations++
+						data, err := sk.run(stream)
+						if err != nil {
+							rep.violation(cs, "written", err.Error(), "stream writer into "+sk.name)
+							continue
+						}
+						total = len(data)
+						rd, err := readContainer(data, f, b64, "bytes", nil)
+						if err != nil {
+							rep.violation(cs, "the tokens that were added", err.Error(), "what the stream writer put into "+sk.name+" cannot be read back")
+						} else if why := sameSet(rd, small); why != "" {
+							rep.violation(cs, "exactly the tokens that were added", why, "stream writer into "+sk.name)
+						}
+					}
+					for room := 0; room < total; room++ {
+						rep.Evaluations++
+						lw := &roomWriter{room: room}
+						if err := stream(lw); err == nil {
+							rep.violation(map[string]any{"fmt": f, "b64": b64, "room": room, "size": total}, "an error",
+								fmt.Sprintf("success, %d of %d bytes stored", lw.n, total), "the destination refused data, the stream writer reported success")
+							break
 						}
 					}
 				}
